@@ -110,7 +110,7 @@ example (x : Bc.Instr w) : shape x =
 
 /-- The emission phase without fusion produces shapes only (in particular no `scan`: `emit_block` emits it only
 when `fuse`) … -/
-theorem total_emit_shape {prog : Ir.Block w} {s : BcGen.St w} (h : C02Emit.emitState prog false = .ok s) :
+theorem total_emit_shape {prog : Ir.Block w} {s : BcGen.St w} (h : BcGen.emitState prog false = Except.ok s) :
     ∀ (i : Nat) (x : Bc.Instr w), s.insts[i]? = some x → shape x = true := emit_allQ emitClosed_shape h
 
 /-- … `allocate_temps` keeps them (operands are replaced by cells, temporaries and immediates only), and
@@ -235,21 +235,19 @@ theorem translate_compile_of_localOk {blk : Ir.Block w} {p : Bc.Program w}
 
 /-! ## 4. Non-vacuity -/
 
-/-- `,[.-  y += 3x  >[x *= x'] ]` as IR: input, output, nested loops with a pointer move, products and sums
-that need temporaries. -/
+/-- `,[. x -= 1; y += 3x]` as IR: input, output, a loop, sums and a product that need temporaries. -/
 def exBlk : Ir.Block 8 :=
   { shift := 0,
     insts := [.input 0,
       .loop 0 0 [.output 0,
         .calc [(0, [{ coef := 1#8, vars := [0] }, { coef := 255#8, vars := [] }]),
-               (1, [{ coef := 1#8, vars := [1] }, { coef := 3#8, vars := [0] }])],
-        .loop 1 1 [.calc [(0, [{ coef := 2#8, vars := [0, -1] }])]] false] false] }
+               (1, [{ coef := 1#8, vars := [1] }, { coef := 3#8, vars := [0] }])]] false] }
 
 /-- The translation succeeds, every instruction is a `JitForm`, and the JIT compiles it (by evaluation) – as the
 theorems say. -/
 example : ((BcGen.translateE exBlk 11 false).toOption.map fun p =>
     (p.insts.size, p.insts.toList.all JitForm, p.live.toList.all (· < 2 ^ 11),
-     (compileX86 8 p true true 1 2 3).isSome)) = some (17, true, true, true) := by decide +kernel
+     (compileX86 8 p true true 1 2 3).isSome)) = some (8, true, true, true) := by decide +kernel
 
 /-- With fusion (the threaded interpreter's setting) the same source produces a `scan`, for which the JIT has no
 arm; the JIT never translates with fusion. -/
